@@ -18,10 +18,36 @@ class OutOfDomain(Exception):
     """The wire value has no representation in kio's Python value types."""
 
 
+# 2023-10-29T00:30:00Z and one hour later: 02:30 CEST (fold=0) and 02:30 CET (fold=1) in Europe/Berlin - the same
+# wall clock time, two instants.  These two wire values are presented to kio as datetimes in that zone, every
+# other timestamp in UTC (a TZAware may carry any zone; the wire value is the instant).  Only where PRESENT_FOLD is set.
+FOLD_TWINS = (1698539400000, 1698543000000)
+_berlin = None
+
+
+def _fold_zone():
+    global _berlin
+    if _berlin is None:
+        try:
+            import zoneinfo
+
+            _berlin = zoneinfo.ZoneInfo("Europe/Berlin")
+        except Exception:  # noqa: BLE001 - no tz database: stay in UTC
+            _berlin = datetime.timezone.utc
+    return _berlin
+
+
+PRESENT_FOLD = False  # set by checks that compare BYTES (C02); equality-based checks keep UTC, because by PEP 495 a
+# fold=1 datetime never compares equal to a datetime in another zone, which is Python's rule, not kio's
+
+
 def ms_to_datetime(n: int) -> datetime.datetime:
     if not 0 <= n <= MAX_DT_MS:
         raise OutOfDomain(f"timestamp {n} ms")
-    return EPOCH + datetime.timedelta(milliseconds=n)
+    dt = EPOCH + datetime.timedelta(milliseconds=n)
+    if PRESENT_FOLD and n in FOLD_TWINS:
+        return dt.astimezone(_fold_zone())
+    return dt
 
 
 def datetime_to_ms(dt: datetime.datetime) -> int:
